@@ -202,7 +202,7 @@ def _sel_viol(res, prop):
         out.append({"sig": {"clause": mine[0]},
                     "what": f'{mine} on DAG n={it["n"]} deps={it["deps"]} kind={it["kind"]} const={it["const"]} row={row}',
                     "replay": {"engine": "E3", "property": prop, "kind": "sel", "clauses": mine,
-                               "dag": {k: it[k] for k in ("n", "deps", "kind", "const", "tags", "setuparg", "idxret", "calltag") if k in it}, "row": row}})
+                               "dag": {k: it[k] for k in ("n", "deps", "kind", "const", "tags", "setuparg", "idxret", "calltag", "actdep") if k in it}, "row": row}})
     return out
 
 
@@ -285,7 +285,7 @@ def replay(payload, log=common.say):
         n = D["n"]
         unmask = lambda m: None if m == -1 else [k for k in range(1, n + 1) if m >> (k - 1) & 1]  # noqa: E731
         rec = {"n": n, "deps": D["deps"], "kind": D["kind"], "const": D["const"], "obs": [], "als": [], "built": True, "setuparg": D.get("setuparg", 0),
-               "tagseq": [D.get("tags", {}).get(str(k), []) for k in range(1, n + 1)]}
+               "tagseq": [D.get("tags", {}).get(str(k), []) for k in range(1, n + 1)], "actdep": D.get("actdep") or [0, 0]}
         try:
             base, ids, xs = ed.build(D)
         except BaseException as e:  # noqa: BLE001
